@@ -70,7 +70,7 @@ def gen_codec(prop, tier, seed):
 
 ENGINE_KIND["codec"] = ("C++ harness (ASan+UBSan): generated type corpus with independent reflection, reference codec written from docs/format.md, "
                         "instrumented readers/writers, allocation meter; every shipped reader/writer kind instantiated per type")
-_codec = dict(engine="codec", flavour="asan", gen=gen_codec, sources=["engines/codec/main.cpp"], programs_counter=None)
+_codec = dict(engine="codec", flavour="asan", gen=gen_codec, sources=["engines/codec/main.cpp", "engines/codec/forms.cpp"], programs_counter=None)
 
 _CORPUS = ("type corpus = curated types (every scalar, enums, strings, BIN/ARY sequences, maps, pair/tuple, reference_wrapper, Optional/Result/Variant, "
            "Handle, structures incl. logical buffers with every size-member shape, value wrappers, tables incl. nested/deleted/handle entries, depth-3 nestings) "
@@ -91,8 +91,10 @@ _codec_check(
     "Bounded over each; all must emit identical bytes) and read back with every applicable reader kind (Log, Buffer, Pedantic, Stream over stringstream and over a "
     "non-seekable chunked streambuf, Fd over memfd/pipe, Bounded over each, plus FdReader on a pipe fed concurrently in 1..7-byte chunks); oracle = value equality on the "
     "dynamic value tree (floats by bit pattern), reader position after every value = bytes the writer had produced, trailing sentinel reads back. Oversize logical "
-    "buffers must be rejected by Write without UB. distinct = hash(type, bytes); non-trivial = encoding of 2+ bytes.",
-    {"quick": 3000, "thorough": 30000}, ["c01_values", "c01_sequences", "c01_reader_FdReader", "c01_reader_BoundedReader<Chunked>", "c01_writer_ConstexprBufferWriter", "c01_oversize_logical_buffer_writes"],
+    "buffers must be rejected by Write without UB. NOP_UNBOUNDED_BUFFER structures (value / structure / external forms, integral and structure elements) round-trip through caller-allocated storage. "
+    "API-form stage: seven hand-written types through every documented form - Serializer<W> with an internal writer (incl. take() and move construction), Serializer<W*>, Serializer<unique_ptr<W>>, the three Deserializer forms, "
+    "Protocol<T>::Write/Read on each - must emit the reference bytes, read the sequence back and end exactly after it. distinct = hash(type, bytes); non-trivial = encoding of 2+ bytes.",
+    {"quick": 3000, "thorough": 30000}, ["c01_values", "c01_sequences", "c01_reader_FdReader", "c01_reader_BoundedReader<Chunked>", "c01_writer_ConstexprBufferWriter", "c01_oversize_logical_buffer_writes", "cases_on_unbounded_buffer_types", "forms_writer_form_runs", "forms_reader_form_runs"],
     "exploration: 10^4-10^5 generated (type, value-sequence) cases, each decided exactly (value tree equality, exact consumed length) on every shipped writer x reader kind, with ASan/UBSan watching the same executions. Types, values and pairings are unbounded sets; sampling with exact per-case oracles is the level this technique reaches.",
     "trusts the independent reflection (vlib/reflect.h + generated Reflect specialisations) to read/write C++ objects faithfully; pairings are exercised per kind through identical bytes rather than as a literal cross product",
     "runtime round-trip oracle on every shipped reader/writer kind under ASan/UBSan, generated type corpus")
@@ -137,8 +139,8 @@ _codec_check(
     "case = (type, value, cut position k, reader kind, mode): every strict prefix of the encoding (all k for encodings <= 512 bytes, field boundaries +-1 and 64 random k beyond) is fed to "
     "every reader kind: Buffer, Pedantic, Log, Stream over stringstream and over a non-seekable chunked streambuf, Fd over memfd and over a pipe closed after k bytes, Bounded over each with "
     "limit beyond the data and with limit = k over the full data; tables are additionally read by a different table version that skips entries (unknown / deleted ids). Oracle: status must be "
-    "an error. distinct = enumerated (value, k, reader, mode) tuples; non-trivial = k > 0.",
-    {"quick": 100000, "thorough": 1000000}, ["c05_cut_reads", "c05_cut_reads_by_other_table_version", "c05_cut_reads_of_padded_tables", "c05_reader_FdReader", "c05_reader_StreamReader<chunked non-seekable>"],
+    "an error. Every cut is also fed to every Deserializer form (internal instance, pointer, unique_ptr, Protocol::Read) of seven hand-written types. distinct = enumerated (value, k, reader, mode) tuples; non-trivial = k > 0.",
+    {"quick": 100000, "thorough": 1000000}, ["c05_cut_reads", "c05_cut_reads_by_other_table_version", "c05_cut_reads_of_padded_tables", "c05_reader_FdReader", "c05_reader_StreamReader<chunked non-seekable>", "forms_cut_reads", "cases_on_unbounded_buffer_types"],
     "fault enumeration: for each generated encoding every cut position is enumerated on every reader implementation (exhaustive per encoding up to 512 bytes); types and values are sampled.",
     "fd and stream media are memfd/pipe/stringstream/custom streambuf inside one process",
     "exhaustive cut-point enumeration per encoding on every shipped reader, under ASan/UBSan",
@@ -150,7 +152,7 @@ _codec_check(
     "capacity 0..GetSize+1 (values <= 300 bytes; selected capacities beyond) on BufferWriter, PedanticBufferWriter, ConstexprBufferWriter, a capacity-checked LogWriter and BoundedWriter over each, "
     "both into a fresh writer and as the second value after another one: room >= GetSize must succeed with the reference bytes, room < GetSize must return WriteLimitReached and write nothing "
     "beyond the room (exact-size allocations under ASan). One case drives aggregate sizes >= 2^32 through reference_wrapper aliasing and a counting writer.",
-    {"quick": 100000, "thorough": 1000000}, ["c06_capacity_writes", "c06_second_value_writes", "c06_huge_aggregate_cases", "c06_table_framings_parsed", "c06_writer_BufferWriter"],
+    {"quick": 100000, "thorough": 1000000}, ["c06_capacity_writes", "c06_second_value_writes", "c06_huge_aggregate_cases", "c06_table_framings_parsed", "c06_writer_BufferWriter", "forms_short_capacity_writes", "cases_on_unbounded_buffer_types"],
     "exploration with exhaustive capacity sweeps per value: each generated value is written into every capacity from 0 to GetSize+1 on every bounded writer kind; types and values are sampled.",
     "BufferWriter is unchecked by design: safety is decided by ASan on exactly-sized allocations",
     "capacity sweep with status/size oracle under ASan on exact-size buffers")
@@ -161,8 +163,9 @@ _codec_check(
     "the k-th call fails with each of ReadLimitReached/WriteLimitReached, StreamError, IOError, ProtocolError, DebugError for every k < N (N capped at 400). Oracle = the call log: returned error == "
     "injected error, zero calls after the failure, nothing written when Prepare fails; handle resolution errors are returned unchanged. "
     "RPC layer: every writer call of three requests through SimpleMethodSender (value-returning and void methods) and every reader call of the reply; every reader call of the request and every writer call of the "
-    "reply in the dispatcher with lambda and member-function bindings: error returned unchanged, no further calls, no reply read after a failed send, no handler / reply after a failed request read.",
-    {"quick": 50000, "thorough": 500000}, ["c10_write_faults", "c10_read_faults", "c10_rpc_sender_write_faults", "c10_rpc_sender_read_faults", "c10_rpc_dispatch_read_faults", "c10_rpc_dispatch_write_faults", "c10_fault_at_Prepare_w", "c10_fault_at_Ensure_r", "c10_fault_at_Skip_r", "c10_fault_at_PushHandle_w", "c10_fault_at_GetHandle_r"],
+    "reply in the dispatcher with lambda and member-function bindings: error returned unchanged, no further calls, no reply read after a failed send, no handler / reply after a failed request read. "
+    "API forms: the same fail-at-k sweep through Serializer<LogWriter> / <LogWriter*> / <unique_ptr<LogWriter>>, the three Deserializer forms and Protocol<T>::Write/Read.",
+    {"quick": 50000, "thorough": 500000}, ["c10_write_faults", "c10_read_faults", "c10_rpc_sender_write_faults", "c10_rpc_sender_read_faults", "c10_rpc_dispatch_read_faults", "c10_rpc_dispatch_write_faults", "c10_fault_at_Prepare_w", "c10_fault_at_Ensure_r", "c10_fault_at_Skip_r", "c10_fault_at_PushHandle_w", "c10_fault_at_GetHandle_r", "forms_write_faults", "forms_read_faults"],
     "fault enumeration: for each generated value every primitive-call index is failed with every error code (exhaustive in k per value); types and values are sampled.",
     "the instrumented LogReader/LogWriter implement the documented Reader/Writer interface",
     "exhaustive fail-at-k injection through instrumented reader/writer with call-log oracle")
